@@ -128,6 +128,7 @@ def check_case(case, stats=None):
     ncx = case.get("constexpr_calls", 0)
     cap = 20 + 1.5 * ncx
     opts = make_opts(case.get("opts"))
+    before = set(children())  # e.g. the multiprocessing resource tracker when run in the parent process
     how, res, dt = call(src, opts, cap)
     if how == "hang":
         # a single cap hit may be machine load: try twice more and judge the first call that returns
@@ -143,12 +144,12 @@ def check_case(case, stats=None):
         stats.evaluations += 1
     if how == "raised":
         raise Violation("C10:compile_code-raises:" + type(res).__name__, {"error": repr(res)[:300]})
-    kids = children()
+    kids = set(children()) - before
     if kids:
         time.sleep(0.25)
-        kids = children()
+        kids = set(children()) - before
         if kids:
-            raise Violation("C10:helper-process-left-running", {"children": kids})
+            raise Violation("C10:helper-process-left-running", {"children": sorted(kids)})
     bad = check_result(res, src)
     if bad:
         raise Violation(bad[0], bad[1])
